@@ -68,6 +68,7 @@ type impl struct {
 	up        bool
 	acked     []int
 	next      int
+	nextSnap  int
 	unhealthy []int // steps at which a stop found the volume without a quorum of RW, not rebuilding replicas
 	step      int
 }
@@ -130,7 +131,17 @@ func (im *impl) state(res string) string {
 		for _, w := range r.Log {
 			l = append(l, fmt.Sprint(w))
 		}
-		ds = append(ds, fmt.Sprintf("%d:%s:%s", r.Rev, b01(r.Rebuilding), strings.Join(l, ".")))
+		var sn []string
+		for k := 0; k < im.nextSnap; k++ {
+			if c, ok := r.Snaps[fmt.Sprintf("s%d", k)]; ok {
+				var cs []string
+				for _, w := range c {
+					cs = append(cs, fmt.Sprint(w))
+				}
+				sn = append(sn, fmt.Sprintf("%d=%s", k, strings.Join(cs, ".")))
+			}
+		}
+		ds = append(ds, fmt.Sprintf("%d:%s:%s:%s", r.Rev, b01(r.Rebuilding), strings.Join(l, "."), strings.Join(sn, ",")))
 	}
 	var as []string
 	for _, w := range im.acked {
@@ -245,6 +256,7 @@ func (im *impl) exec(line string) (string, string) {
 		}
 		im.rep(i).Rebuilding = true
 		im.rep(i).Log = nil
+		im.rep(i).Snaps = nil
 		return line, im.state("ok")
 	case "promote":
 		i, _ := strconv.Atoi(f[1])
@@ -261,6 +273,10 @@ func (im *impl) exec(line string) (string, string) {
 			return line, im.state("verify-failed:" + err.Error())
 		}
 		tr.Log = log
+		tr.Snaps = map[string][]int{}
+		for k, v := range sr.Snaps {
+			tr.Snaps[k] = append([]int{}, v...)
+		}
 		return line, im.state("ok")
 	case "rbdone":
 		i, _ := strconv.Atoi(f[1])
@@ -275,6 +291,13 @@ func (im *impl) exec(line string) (string, string) {
 			return line, im.state("refused")
 		}
 		im.c.RemoveReplica(im.addr(i))
+		return line, im.state("ok")
+	case "snap":
+		// a user-created volume snapshot through the real controller
+		if _, err := im.c.Snapshot(fmt.Sprintf("s%d", im.nextSnap)); err != nil {
+			return line, im.state("refused")
+		}
+		im.nextSnap++
 		return line, im.state("ok")
 	case "stop":
 		good := 0
@@ -486,7 +509,14 @@ func generate(rng *rand.Rand, hosts []string, steps int, anyStop bool) *gen {
 			if strings.HasPrefix(o, "refused") {
 				g.feat["write-refused-read-only"] = true
 			}
-		case x < 0.91:
+		case x < 0.89 && (len(rws) == rf || rng.Float64() < 0.1):
+			o := g.do("snap")
+			if strings.HasPrefix(o, "ok") {
+				g.feat["volume-snapshot"] = true
+			} else {
+				g.feat["volume-snapshot-refused"] = true
+			}
+		case x < 0.92:
 			g.do(fmt.Sprintf("rm %d", all[rng.Intn(len(all))]))
 			g.feat["remove"] = true
 		default:
